@@ -36,6 +36,7 @@ func ruleNum(c *Ctx) {
 	b.floatWidth(l)
 	b.numberIntoString(l)
 	// (ii) convertNumber
+	b.numberTextWrittenAsIs(l)
 	if cn := b.method(b.Codec, "decodeState", "convertNumber"); cn == nil {
 		l.add("R-NUM", "codec", "anchor convertNumber", "", Undecided, "(*decodeState).convertNumber not found", false)
 	} else {
@@ -759,4 +760,46 @@ func holdsInterfaceOrFloat(t types.Type, depth int) bool {
 		return holdsInterfaceOrFloat(u.Elem(), depth+1)
 	}
 	return false
+}
+
+// numberTextWrittenAsIs (R-NUM, codec): the encoder writes a Number as the text it holds. The
+// only spelling it replaces is the empty one (by 0, as encoding/json does): in stringEncoder
+// the text is compared with no constant but "". A second special case (-0 treated like the
+// empty Number, say) rewrites a literal of the document.
+func (b *Body) numberTextWrittenAsIs(l *Ledger) {
+	if b.Codec == nil {
+		return
+	}
+	fn := fnOf(b.Codec, "stringEncoder")
+	if fn == nil || len(fn.Blocks) == 0 {
+		return
+	}
+	key := "stringEncoder: a Number is written as the text it holds (only the empty text is replaced)"
+	bad := ""
+	n := 0
+	allInstrs(fn, func(i ssa.Instruction) {
+		bo, ok := i.(*ssa.BinOp)
+		if !ok || (bo.Op != token.EQL && bo.Op != token.NEQ) {
+			return
+		}
+		for _, p := range [][2]ssa.Value{{bo.X, bo.Y}, {bo.Y, bo.X}} {
+			s0, isS := strConst(p[0])
+			if !isS {
+				continue
+			}
+			call, isCall := unwrapConv(p[1]).(*ssa.Call)
+			if !isCall || stdName(call.Call.StaticCallee()) != "reflect.(Value).String" {
+				continue
+			}
+			n++
+			if s0 != "" {
+				bad = "the text of the value is compared with " + fmt.Sprintf("%q", s0) + " at " + b.posOf(bo) + ": a literal other than the empty one is singled out for rewriting"
+			}
+		}
+	})
+	if bad != "" {
+		l.add("R-NUM", "codec", key, b.rel(fn.Pos()), Violated, bad, true)
+	} else if n > 0 {
+		l.add("R-NUM", "codec", key, b.rel(fn.Pos()), Discharged, fmt.Sprintf("%d comparison(s) of the text with a constant, each with the empty string", n), true)
+	}
 }
